@@ -54,3 +54,34 @@ def ids_for(proto):
 def supported_protocols():
     from minecraft import SUPPORTED_PROTOCOL_VERSIONS
     return list(SUPPORTED_PROTOCOL_VERSIONS)
+
+
+_usable = []
+
+
+def colliding_protocols():
+    """Protocols where two registered classes of one table share an id (the
+    subject of C06, not decided here): excluded from scenario sampling, since
+    pyCraft's decoder choice there depends on set iteration order."""
+    from minecraft import SUPPORTED_PROTOCOL_VERSIONS
+    from minecraft.networking.connection import ConnectionContext
+    from minecraft.networking.packets import clientbound as cb, \
+        serverbound as sb
+    bad = []
+    for p in SUPPORTED_PROTOCOL_VERSIONS:
+        ctx = ConnectionContext(protocol_version=p)
+        for mod in (cb.play, cb.login, cb.status, sb.play, sb.login):
+            seen = set()
+            for cls in mod.get_packets(ctx):
+                i = cls.get_id(ctx)
+                if i in seen:
+                    bad.append(p)
+                seen.add(i)
+    return sorted(set(bad))
+
+
+def usable_protocols():
+    if not _usable:
+        bad = set(colliding_protocols())
+        _usable.extend(p for p in supported_protocols() if p not in bad)
+    return list(_usable)
